@@ -119,6 +119,8 @@ func newTypedName2(namespace px.Namespace, name string, nameAuthority px.URI) px
 	tn.namespace = namespace
 	tn.authority = nameAuthority
 	tn.name = strings.TrimPrefix(name, `::`)
+	// computed here and not on demand: a typed name is shared between go routines and MapKey is read by all of them
+	tn.canonical = strings.ToLower(string(tn.authority) + `/` + string(tn.namespace) + `/` + tn.name)
 	return &tn
 }
 
